@@ -35,6 +35,14 @@ def content(kind, tag):
         g["s1"]["name"] = "sec-" + tag
         if kind == "v10xml":
             return CV.render_xml(g)
+        if kind == "v10xmlent":
+            # the same file with a general entity declared in its DOCTYPE and used inside the Section name and a value text
+            text = CV.render_xml(g).replace("sec-" + tag, "&pre;" + tag).replace(">val1<", ">&v;1<")
+            dtd = '<!DOCTYPE odML [<!ENTITY pre "sec-"><!ENTITY v "val">]>\n'
+            if text.startswith("<?xml"):
+                i = text.index("?>") + 2
+                return text[:i] + "\n" + dtd + text[i:].lstrip()
+            return dtd + text
         dd = CV.render_dict(g)
         if kind == "v10jsontab":
             return json.dumps(dd, indent="\t")             # JSON indented with tabs (legal JSON, not YAML)
@@ -148,7 +156,8 @@ def fc_replay(t):
         inname = "exp.v2" if dotted else "input"
         indir = os.path.join(d, inname); os.makedirs(os.path.join(indir, "sub"))
         given = os.path.join(d, "results.2019" if dotted else "given"); os.makedirs(given)
-        files = [{"kind": kind, "ext": "xml", "where": "top"}, {"kind": kind, "ext": "xml", "where": "sub" if t["sub"] else "top"}]
+        kind2 = "v10xmlent" if kind == "v10xml" and dotted else kind            # the second 1.0 file uses entities of its DOCTYPE
+        files = [{"kind": kind, "ext": "xml", "where": "top"}, {"kind": kind2, "ext": "xml", "where": "sub" if t["sub"] else "top"}]
         paths = []
         for i, f in enumerate(files):
             tag = "f%d" % (i + 1)
